@@ -19,13 +19,34 @@ type headerWriter struct {
 	zw  *zlib.Writer
 }
 
+// A deflate context is ~650 KB; creating one per connection dominates the cost
+// of a short connection under the race detector, so they are recycled (Reset
+// starts a fresh zlib stream).
+var zwFree = make(chan *zlib.Writer, 512)
+
+func (w *headerWriter) release() {
+	if w.zw != nil {
+		select {
+		case zwFree <- w.zw:
+		default:
+		}
+		w.zw = nil
+	}
+}
+
 func (w *headerWriter) block(h map[string][]string) ([]byte, error) {
 	if w.zw == nil {
-		zw, err := zlib.NewWriterLevelDict(&w.buf, zlib.NoCompression, spdyDictionary)
-		if err != nil {
-			return nil, err
+		select {
+		case zw := <-zwFree:
+			zw.Reset(&w.buf)
+			w.zw = zw
+		default:
+			zw, err := zlib.NewWriterLevelDict(&w.buf, zlib.NoCompression, spdyDictionary)
+			if err != nil {
+				return nil, err
+			}
+			w.zw = zw
 		}
-		w.zw = zw
 	}
 	w.buf.Reset()
 	var raw bytes.Buffer
